@@ -182,6 +182,16 @@ def corpus_cases():
     yield C(max_line=40, max_field=100), b"POST / HTTP/1.1\r\nHost: x\r\nTransfer-Encoding: chunked\r\n\r\n5\r\nhello\r\n0\r\nX: " + b"t" * 60 + b"\r\nY: " + b"u" * 60 + b"\r\n\r\n", "trailer-between-limits"
     yield C(max_line=100, max_field=40), b"POST / HTTP/1.1\r\nHost: x\r\nTransfer-Encoding: chunked\r\n\r\n5;" + b"e" * 60 + b"\r\nhello\r\n0\r\n\r\n", "chunkline-between-limits"
     yield C(max_headers=6), b"GET / HTTP/1.1\r\nHost: x\r\nA: 1\r\nB: 2\r\nC: 3\r\n\r\n", "exactly-max-headers"
+    # the trailer section shares the max_headers budget with the head (max_trailers = max_headers - head lines): a head
+    # that uses the budget up exactly leaves no room even for the blank line that ends the trailers — wherever the cut is
+    _ch = b"POST /x HTTP/1.1\r\nHost: a\r\nTransfer-Encoding: chunked\r\n\r\n"          # 4 head lines
+    _rh = b"HTTP/1.1 200 OK\r\nTransfer-Encoding: chunked\r\n\r\n"                      # 3 head lines
+    for mh in (4, 5, 6, 7):
+        yield C(max_headers=mh), _ch + b"3\r\nabc\r\n0\r\n\r\n", f"trailer-budget-{mh}-none"
+        yield C(max_headers=mh), _ch + b"3\r\nabc\r\n0\r\nX: y\r\n\r\n", f"trailer-budget-{mh}-one"
+        yield C(max_headers=mh), _ch + b"0\r\nX: y\r\nZ: w\r\n\r\nGET /n HTTP/1.1\r\nHost: a\r\n\r\n", f"trailer-budget-{mh}-two-next"
+        yield C(max_headers=mh - 1, response=True, lax=True), _rh + b"3\r\nabc\r\n0\r\n\r\n", f"resp-trailer-budget-{mh - 1}-none"
+        yield C(max_headers=mh - 1, response=True, lax=True), _rh + b"3\nabc\n0\nX: y\n\n", f"resp-trailer-budget-{mh - 1}-one-lf"
     yield C(response=True, lax=True), b"HTTP/1.1 200 OK\r\nTransfer-Encoding: chunked\r\n\r\n3\r\nabc\r\n0\n\rX: y\r\n\r\n", "lax-lfcr-before-trailer"
     yield C(response=True, lax=True), b"HTTP/1.1 200 OK\nTransfer-Encoding: chunked\n\n3\nabc\n\r0\n\r\n", "lax-lfcr-2"
     # an Upgrade request that carries a body, followed by bytes of the upgraded protocol: the switch takes effect when
